@@ -88,38 +88,97 @@ fn expand(op: &str) -> Vec<String> {
     }
 }
 
+fn run_suite(suite: &str, tier: &str, seed: u64, dir: &str) -> bool {
+    match suite {
+        "C01" => c01::run(tier, seed, dir),
+        "C02" => c02::run(tier, seed, dir),
+        "C03" => c03::run(tier, seed, dir),
+        "C04" => c04::run(tier, seed, dir),
+        "C05" => c05::run(tier, seed, dir),
+        "C06" => c06::run(tier, seed, dir),
+        "C07" => c07::run(tier, seed, dir),
+        "C08" => c08::run(tier, seed, dir),
+        "C09" => c09::run(tier, seed, dir),
+        "C10" => c10::run(tier, seed, dir),
+        "C11" => c11::run(tier, seed, dir),
+        "C12" => c12::run(tier, seed, dir),
+        "C13" => c13::run(tier, seed, dir),
+        "C14" => c14::run(tier, seed, dir),
+        "C15" => c15::run(tier, seed, dir),
+        "C16" => c16::run(tier, seed, dir),
+        "C17" => c17::run(tier, seed, dir),
+        "C18" => c18::run(tier, seed, dir),
+        "C19" => c19::run(tier, seed, dir),
+        "C20" => c20::run(tier, seed, dir),
+        _ => return false,
+    }
+    true
+}
+
+/// The MAC-level suites share one op-line grammar (`mac` / `adev` / `nbdev` histories).  The special
+/// classes one suite's generator builds (corpora, sweeps, boundary scenarios) are relevant to the
+/// sibling properties as well: after its own cases a MAC suite replays a sample of its siblings'
+/// histories under ITS OWN oracle.  (A change that breaks property X is then reported by X's check
+/// even when the scenario that exposes it was written for property Y.)
+fn import_siblings(suite: &str, tier: &str, seed: u64, dir: &str) {
+    const MAC: [&str; 10] = ["C04", "C05", "C06", "C07", "C08", "C09", "C10", "C11", "C12", "C20"];
+    // C05's own ops are mostly counter-arithmetic digests and C07's carry starred twin events
+    const SOURCES: [&str; 8] = ["C04", "C06", "C08", "C09", "C10", "C11", "C12", "C20"];
+    if !MAC.contains(&suite) || std::env::var("LV_NO_SIBLINGS").is_ok() {
+        return;
+    }
+    use std::io::Write;
+    let per_sibling: usize = if tier == "thorough" { 2500 } else { 350 };
+    let mut ops_f = std::fs::OpenOptions::new().append(true).open(format!("{}/ops.txt", dir)).unwrap();
+    let mut imp_f = std::fs::OpenOptions::new().append(true).open(format!("{}/impl.txt", dir)).unwrap();
+    let mut meta: serde_json::Value = serde_json::from_str(&std::fs::read_to_string(format!("{}/meta.json", dir)).unwrap()).unwrap();
+    let mut added_total: u64 = 0;
+    for sib in SOURCES {
+        if sib == suite {
+            continue;
+        }
+        let tmp = format!("{}/_sib_{}", dir, sib);
+        std::env::set_var("LV_NO_SIBLINGS", "1");
+        run_suite(sib, "quick", seed.wrapping_add(17), &tmp);
+        let lines: Vec<String> = std::fs::read_to_string(format!("{}/ops.txt", tmp))
+            .unwrap_or_default()
+            .lines()
+            .filter(|l| matches!(l.split_whitespace().nth(1), Some("mac") | Some("adev") | Some("nbdev")))
+            .map(|l| format!("{}{}", suite, &l[sib.len()..]))
+            .collect();
+        let _ = std::fs::remove_dir_all(&tmp);
+        let step = (lines.len() / per_sibling).max(1);
+        let mut n: u64 = 0;
+        for l in lines.iter().step_by(step) {
+            let a = eval(l);
+            writeln!(ops_f, "{}", l).unwrap();
+            writeln!(imp_f, "{}", a).unwrap();
+            n += 1;
+        }
+        meta["histogram"][format!("sibling-corpus-{}", sib)] = serde_json::json!(n);
+        added_total += n;
+    }
+    meta["evaluations"] = serde_json::json!(meta["evaluations"].as_u64().unwrap_or(0) + added_total);
+    meta["distinct_nontrivial"] = serde_json::json!(meta["distinct_nontrivial"].as_u64().unwrap_or(0) + added_total);
+    let rule = format!(
+        "{} Plus a sample of the sibling MAC suites' histories (their corpora, sweeps and boundary scenarios, op lines re-labelled) judged by this suite's own oracle and compared with the model (classes sibling-corpus-*).",
+        meta["rule"].as_str().unwrap_or("")
+    );
+    meta["rule"] = serde_json::json!(rule);
+    std::fs::write(format!("{}/meta.json", dir), serde_json::to_string_pretty(&meta).unwrap()).unwrap();
+}
+
 fn main() {
     let a: Vec<String> = std::env::args().collect();
     util::silence_panics();
     match a.get(1).map(|s| s.as_str()) {
         Some("gen") if a.len() >= 6 => {
             let (suite, tier, seed, dir) = (a[2].as_str(), a[3].as_str(), a[4].parse::<u64>().unwrap_or(0), a[5].as_str());
-            match suite {
-                "C01" => c01::run(tier, seed, dir),
-                "C02" => c02::run(tier, seed, dir),
-                "C03" => c03::run(tier, seed, dir),
-                "C04" => c04::run(tier, seed, dir),
-                "C05" => c05::run(tier, seed, dir),
-                "C06" => c06::run(tier, seed, dir),
-                "C07" => c07::run(tier, seed, dir),
-                "C08" => c08::run(tier, seed, dir),
-                "C09" => c09::run(tier, seed, dir),
-                "C10" => c10::run(tier, seed, dir),
-                "C11" => c11::run(tier, seed, dir),
-                "C12" => c12::run(tier, seed, dir),
-                "C13" => c13::run(tier, seed, dir),
-                "C14" => c14::run(tier, seed, dir),
-                "C15" => c15::run(tier, seed, dir),
-                "C16" => c16::run(tier, seed, dir),
-                "C17" => c17::run(tier, seed, dir),
-                "C18" => c18::run(tier, seed, dir),
-                "C19" => c19::run(tier, seed, dir),
-                "C20" => c20::run(tier, seed, dir),
-                _ => {
-                    eprintln!("unknown suite {}", suite);
-                    std::process::exit(64);
-                }
+            if !run_suite(suite, tier, seed, dir) {
+                eprintln!("unknown suite {}", suite);
+                std::process::exit(64);
             }
+            import_siblings(suite, tier, seed, dir);
         }
         Some("eval") if a.len() >= 3 => {
             for line in std::fs::read_to_string(&a[2]).unwrap().lines() {
